@@ -7,6 +7,8 @@
 (* the algorithm with one action per loop step of the code:                *)
 (*                                                                         *)
 (*   slots = one per mount; want = has replica && mount read-only   Start  *)
+(*   underreplicated = some class with desired > 0 has no mount at all     *)
+(*                                     (since fecd3c4)               Start *)
 (*   for class in sorted(classes that have a mount):            ClassBegin *)
 (*     desired = blk.Desired[class]; if 0 continue                         *)
 (*     sort slots by (in class, want, rendezvous rank, has replica, tie)   *)
@@ -26,20 +28,24 @@
 (*   replicas that are unsafeToDelete by mtime, or all replicas if         *)
 (*   underreplicated, become wanted                                  Final *)
 (*   per slot: !want && replica && mtime < MinMtime       -> trash         *)
-(*             no replica && want && no replica anywhere  -> lost          *)
+(*             no replica anywhere && some desired > 0    -> lost          *)
+(*                                     (since 7308213; before: only while  *)
+(*                                      visiting a wanted empty slot)      *)
 (*             no replica && want && !readonly            -> pull from the *)
 (*                                       server of blk.Replicas[0]   Emit  *)
 (*                                                                         *)
 (* Deliberate properties of the code that the model keeps: replication is  *)
 (* summed per MOUNT in `safe` and in `replProt` (two mounts that are views *)
 (* of one device count twice unless the device was marked wanted first);   *)
-(* storage classes that no mount offers are never considered; `lost` needs *)
-(* a wanted slot, i.e. a writable mount; pass 1 skips a second in-class    *)
-(* replica on a server already in use and may count an out-of-class        *)
-(* replica of another server instead.  Where these contradict the          *)
-(* contract the layouts are named KF_* below: the MC configuration checks  *)
-(* refinement outside them (ExcludeKF = TRUE), the Gen configuration keeps *)
-(* them so that RUN + JUDGE re-confirm them against the real code.         *)
+(* pass 1 skips a second in-class replica on a server already in use and   *)
+(* may count an out-of-class replica of another server instead.  Where     *)
+(* these contradict the contract the layouts are named KF_* below: the MC  *)
+(* configurations check refinement outside them (ExcludeKF = TRUE), the    *)
+(* Gen configurations keep them so that RUN + JUDGE re-confirm them        *)
+(* against the real code.  Two former findings are repaired in the code    *)
+(* and in this model (a desired class that no mount offers: fecd3c4; lost  *)
+(* without a writable mount: 7308213); their layouts are ordinary members  *)
+(* of the checked and generated space now.                                 *)
 (*                                                                         *)
 (* cleanupMounts (read-only views of a device that is writable elsewhere   *)
 (* are dropped) is not modelled: the generator avoids such layouts; the    *)
@@ -110,12 +116,6 @@ AddMount ==
 
 \* a device seen through two mounts that both report the replica (shared-device double counting)
 KF_shared == \E a, b \in Mounts : a # b /\ lay.dev[a] # 0 /\ lay.dev[a] = lay.dev[b] /\ lay.has[a] /\ lay.has[b]
-\* a class is desired that no mount offers
-KF_noclass(des) == \E c \in C!Classes : des[c] > 0 /\ ~\E m \in Mounts : c \in lay.cls[m]
-\* referenced, no replica, and no writable mount to want
-KF_allro(des, sro) == /\ \E c \in C!Classes : des[c] > 0
-                      /\ \A m \in Mounts : ~lay.has[m] /\ (lay.ro[m] \/ lay.srv[m] \in sro)
-
 \* a replica on a server with several mounts while a replica outside a desired class exists (pass 1
 \* skips the in-class replica once its server is wanted and counts the out-of-class one)
 KF_skipsrv(des) == /\ \E a, b \in Mounts : a # b /\ lay.srv[a] = lay.srv[b] /\ lay.has[a]
@@ -131,15 +131,16 @@ Start ==
           sro \in (IF AllowRO THEN {{}} \cup {{s} : s \in 1 .. MaxSrv} ELSE {{}}) :
          LET des == [default |-> dd, special |-> ds] IN
          /\ \A s \in sro : OnSrv(s) > 0
-         /\ ExcludeKF => ~(KF_shared \/ KF_noclass(des) \/ KF_allro(des, sro) \/ KF_skipsrv(des))
+         /\ ExcludeKF => ~(KF_shared \/ KF_skipsrv(des))
          /\ lay' = [lay EXCEPT !.desired = des, !.srvro = sro]
          /\ tieflip' = tf
          /\ want' = {m \in Mounts : lay.has[m] /\ (lay.ro[m] \/ lay.srv[m] \in sro)}
+         /\ underrep' = \E c \in C!Classes : des[c] > 0 /\ ~\E m \in Mounts : c \in lay.cls[m]
     /\ classes' = ClassesOf
     /\ ci' = 1
     /\ pc' = "class"
     /\ UNCHANGED <<trashed, fin, order, i, donef, wantSrv, wantMnt, wantDev, protMnt, replWant, replProt,
-                   unsafe, underrep, todoT, todoP, lost>>
+                   unsafe, todoT, todoP, lost>>
 
 --------------------------------------------------------------------------
 (* the algorithm *)
@@ -239,7 +240,7 @@ Final ==
            none == \A m \in Mounts : ~lay.has[m]
        IN /\ want' = w
           /\ todoT' = {m \in Mounts : m \notin w /\ lay.has[m] /\ lay.mt[m] < lay.cut}
-          /\ lost' = (none /\ \E m \in Mounts : ~lay.has[m] /\ m \in w)
+          /\ lost' = (none /\ (C!Referenced \/ \E m \in Mounts : ~lay.has[m] /\ m \in w))
           /\ todoP' = IF none THEN {} ELSE {m \in Mounts : ~lay.has[m] /\ m \in w /\ ~ERO(m)}
     /\ pc' = "emit"
     /\ UNCHANGED <<cvars, tieflip, classes, ci, order, i, donef, wantSrv, wantMnt, wantDev, protMnt, replWant,
